@@ -234,7 +234,10 @@ def build(r, env=None, cc=None):
     if r.get("fix") is not None and vid is not None:
         # a sub-proposition pre-fixed to a constant by the bounds of its own variable
         vid = puan.variable(vid, bounds=(int(r["fix"]), int(r["fix"])))
-    if k == "All":
+    if r.get("via") == "from_list" and k in ("All", "Any", "Xor", "ExactlyOne", "XNor"):
+        # the alternative constructors
+        m = {"All": pg.All, "Any": pg.Any, "Xor": pg.Xor, "ExactlyOne": pg.ExactlyOne, "XNor": pg.XNor}[k].from_list(args, variable=vid)
+    elif k == "All":
         m = pg.All(*args, variable=vid)
     elif k == "Any":
         m = pg.Any(*args, variable=vid)
